@@ -577,7 +577,19 @@ fn lvl_model(l: &Lvl, net: Net) -> (String, Tab, Option<MKey>) {
 fn addr_case(cx: &mut Ctx, l: &Lvl, net: Net, j: u128, r: &UnifiedAddressRequest) {
     let (pk, mut tab, ivk) = lvl_model(l, net);
     if let Some(i) = &ivk {
-        tab.uivk_at(i, j);
+        match tab.uivk_at(i, j) {
+            Some(true) => cx.st.hit("addr_j_sapling_valid"),
+            Some(false) => cx.st.hit("addr_j_sapling_invalid"),
+            None => cx.st.hit("addr_no_sapling_key"),
+        }
+    }
+    if j >= (1u128 << 31) {
+        cx.st.hit("addr_j_ge_2p31");
+    }
+    match l {
+        Lvl::Usk(_) => cx.st.hit("addr_level_usk"),
+        Lvl::Ufvk(_) => cx.st.hit("addr_level_ufvk"),
+        Lvl::Uivk(_) => cx.st.hit("addr_level_uivk"),
     }
     let jj = di(j);
     let mut outs = vec![];
@@ -782,6 +794,9 @@ fn ufvk_decode_case(cx: &mut Ctx, net: Net, s: &str, orig: Option<&MKey>) {
         }
     }
     let res = catch(|| UnifiedFullViewingKey::decode(&net, s));
+    if res.is_none() && std::env::var_os("C11_DUMP").is_some() {
+        eprintln!("UFVK decode panics (net {:?}): {}", net, s);
+    }
     let o = match res {
         None => PANIC.into(),
         Some(Ok(k)) => match catch(|| k.encode(&net)) {
@@ -1291,7 +1306,11 @@ fn legacy_cases(cx: &mut Ctx, net: Net, usk: &UnifiedSpendingKey) {
 // ---------------------------------------------------------------------------------------------
 
 fn main() {
-    quiet_panics();
+    if std::env::var_os("C11_DUMP").is_some() {
+        std::panic::set_hook(Box::new(|i| eprintln!("panic: {}", i)));
+    } else {
+        quiet_panics();
+    }
     let a = args();
     let n_keys = if a.search { 40 } else { a.budget(4, 120) };
     let mut cx = Ctx { rng: Rng::new(a.seed, 11), st: Stats::default(), reqs: all_requests() };
@@ -1535,6 +1554,8 @@ fn main() {
             }
         }
         for r in &reqs {
+            let j = *cx.rng.pick(&js);
+            addr_case(&mut cx, &Lvl::Usk(usk.clone()), net, j, r);
             let reps = if a.search || a.thorough() { 6 } else { 3 };
             for _ in 0..reps {
                 let l = cx.rng.pick(&lvls).clone();
